@@ -454,6 +454,7 @@ def _run(ctx):
     ctx.add("trace_resyncs", len(r["resyncs"]))
     for name, ev, rec in r["resyncs"][:20]:
         ctx.drift("real FSM diverges from FSM.tla at %s of schedule %s" % (ev, name))
+        ctx.note("resync %s %s: %s" % (name, ev, json.dumps(rec, sort_keys=True)[:900]))
     for inv, name, rec in r["violated"]:
         if name in F.judge_all.flagged:
             ctx.add("tv_confirmed_violations", 1)
